@@ -1,8 +1,105 @@
 import DarkluaModel.Util.Sexp
-/-! Line-protocol handlers for property C20 (stub: nothing modelled yet). -/
+import DarkluaModel.C20.Model
+import DarkluaModel.C20.Spec
+/-!
+Line-protocol handlers for property C20.
+
+* `c20.glob <hex pattern> <hex path>`         → `true|false|invalid|outside|badpath` (Spec matcher)
+* `c20.globrow <hex pattern> <hex path>*`     → `invalid|outside` or one char per path: `1|0|-` (`-` = bad path)
+* `c20.decide <sexp>`                         → one answer per path, joined by `;`:
+      `untouched` | `written i₁ … iₖ` (tags of the rules that ran, in order)
+  with `<sexp>` = `(cfg (m row…) (apply i…) (skip i…) (rules ((i…) (i…))…) (paths n))`,
+  each `row` a string of `0/1` (row p, column path) — the match matrix of the caller.
+* `c20.should <sexp>` = `(f (m row…) (apply i…) (skip i…) (paths n))` → string of `0/1`: `shouldApply` per path
+-/
 namespace DarkluaModel.C20
 
-def handle (op : String) (_args : List String) : String :=
-  "unknown-op " ++ op
+open DarkluaModel
+
+private def hexToChars? (s : String) : Option (List Char) := do
+  let bytes ← hexToBytes? s
+  let str ← String.fromUTF8? (ByteArray.mk bytes.toArray)
+  pure str.toList
+
+private def rowOf (s : String) : Option (List Bool) :=
+  s.toList.mapM fun c => if c == '1' then some true else if c == '0' then some false else none
+
+private def natList? (xs : List Sexp) : Option (List Nat) := xs.mapM Sexp.nat?
+
+private def matrix? : Sexp → Option (List (List Bool))
+  | .list (.atom "m" :: rows) => rows.mapM fun r => r.atom?.bind rowOf
+  | _ => none
+
+private def tagged? (tag : String) : Sexp → Option (List Nat)
+  | .list (.atom t :: xs) => if t == tag then natList? xs else none
+  | _ => none
+
+private def ruleFilters? : Sexp → Option (List Nat × List Nat)
+  | .list [.list a, .list s] => do pure (← natList? a, ← natList? s)
+  | _ => none
+
+private def showOutcome : Outcome (List Nat) Unit → String
+  | .untouched => "untouched"
+  | .written b => " ".intercalate ("written" :: b.map toString)
+  | .failed _ => "failed"
+
+def handleDecide (s : Sexp) : Option String :=
+  match s with
+  | .list [.atom "cfg", m, a, sk, .list (.atom "rules" :: rs), .list [.atom "paths", n]] => do
+    let matrix ← matrix? m
+    let apply ← tagged? "apply" a
+    let skip ← tagged? "skip" sk
+    let rules ← rs.mapM ruleFilters?
+    let n ← n.nat?
+    let cfg := tagConfig apply skip rules
+    pure (";".intercalate ((List.range n).map fun path =>
+      showOutcome (processFile (matrixMatches matrix) cfg path [])))
+  | _ => none
+
+def handleShould (s : Sexp) : Option String :=
+  match s with
+  | .list [.atom "f", m, a, sk, .list [.atom "paths", n]] => do
+    let matrix ← matrix? m
+    let apply ← tagged? "apply" a
+    let skip ← tagged? "skip" sk
+    let n ← n.nat?
+    pure (String.ofList ((List.range n).map fun path =>
+      if shouldApply (matrixMatches matrix) apply skip path then '1' else '0'))
+  | _ => none
+
+def handle (op : String) (args : List String) : String :=
+  match op, args with
+  | "glob", [p, q] =>
+    match hexToChars? p, hexToChars? q with
+    | some pat, some path =>
+      match Spec.classify pat with
+      | .invalid => "invalid"
+      | .outside => "outside"
+      | .ok => match Spec.glob pat path with
+        | some true => "true"
+        | some false => "false"
+        | none => "badpath"
+    | _, _ => "bad-args"
+  | "globrow", p :: qs =>
+    match hexToChars? p, qs.mapM hexToChars? with
+    | some pat, some paths =>
+      match Spec.classify pat with
+      | .invalid => "invalid"
+      | .outside => "outside"
+      | .ok => String.ofList (paths.map fun path =>
+          match Spec.glob pat path with
+          | some true => '1'
+          | some false => '0'
+          | none => '-')
+    | _, _ => "bad-args"
+  | "decide", _ =>
+    match (Sexp.parse (" ".intercalate args)).bind handleDecide with
+    | some r => r
+    | none => "bad-args"
+  | "should", _ =>
+    match (Sexp.parse (" ".intercalate args)).bind handleShould with
+    | some r => r
+    | none => "bad-args"
+  | _, _ => "unknown-op " ++ op
 
 end DarkluaModel.C20
